@@ -914,7 +914,7 @@ theorem nextUtf8_bound (mem : Mem) (p : Nat) (len : Option Nat) (e : Nat) (hb : 
     · simp only [hll, if_false]
       by_cases hlt : lenLt len (leadLen (mem p).toNat) = true
       · simp only [hlt, if_true]; exact hp1
-      · simp only [hlt]
+      · simp only [hlt, Bool.false_eq_true, if_false]
         have hn : 2 ≤ leadLen (mem p).toNat := by
           rcases leadLen_cases (mem p).toNat with h | h | h | h <;> omega
         generalize hN : leadLen (mem p).toNat = N at *
@@ -1000,6 +1000,106 @@ theorem loop_bound (mem : Mem) (L : Option Limit) (start e : Nat) :
       split at h
       · injection h with _ _ h3; omega
       · exact ih _ _ _ _ _ _ _ _ hs.2.1 (by omega) h
+
+
+/-! ### encode, then decode / count -/
+
+theorem wcwidth_ne_neg_one (cp : Nat) (hz : cp ≠ 0) (hc : ¬ (cp < 32 ∨ (0x7f ≤ cp ∧ cp < 0xa0))) :
+    Width.wcwidth cp ≠ -1 := by
+  unfold Width.wcwidth
+  split
+  · decide
+  · unfold Width.mkWcwidth
+    simp only [hz, if_false]
+    have : ¬ (cp < 32 ∨ cp ≥ 0x7f ∧ cp < 0xa0) := by omega
+    simp only [this, if_false]
+    split
+    · decide
+    · split <;> omega
+
+theorem seqlen_pos (cp : Nat) : 1 ≤ seqlen cp := by
+  unfold seqlen; (repeat' split) <;> omega
+
+/-- Decoding what `tickit_utf8_put` wrote gives the code point back, and reads exactly its bytes. -/
+theorem nextUtf8_putBytes (cp : Nat) (h0 : 0 < cp) (h1 : cp < 0x200000) :
+    nextUtf8 (memOfBytes (putBytes cp)) 0 none = .ok (seqlen cp) cp (seqlen cp) ∧
+    (putBytes cp).length = seqlen cp ∧ (∀ x ∈ putBytes cp, x < 256) ∧
+    (memOfBytes (putBytes cp) 0).toNat ≠ 0 := by
+  rcases Nat.lt_or_ge cp 0x80 with hA | hA
+  · have hs : seqlen cp = 1 := by unfold seqlen; simp [hA]
+    have hb : ∀ x ∈ putBytes cp, x < 256 := by rw [putBytes_1 cp hA]; simp; omega
+    have m0 : (memOfBytes (putBytes cp) 0).toNat = cp := by
+      rw [memOfBytes_toNat _ _ hb, putBytes_1 cp hA]; rfl
+    refine ⟨?_, by rw [putBytes_1 cp hA, hs]; rfl, hb, by omega⟩
+    rw [nextUtf8_ascii _ _ _ (by simp) (by omega) (by omega), m0, hs]
+  · rcases Nat.lt_or_ge cp 0x800 with hB | hB
+    · have hs : seqlen cp = 2 := by unfold seqlen; (repeat' split) <;> omega
+      have hb : ∀ x ∈ putBytes cp, x < 256 := by
+        rw [putBytes_2 cp hA hB]; intro x hx; simp at hx; omega
+      have m0 : (memOfBytes (putBytes cp) 0).toNat = 192 + cp / 64 := by
+        rw [memOfBytes_toNat _ _ hb, putBytes_2 cp hA hB]; rfl
+      have m1 : (memOfBytes (putBytes cp) (0 + 1)).toNat = 128 + cp % 64 := by
+        rw [memOfBytes_toNat _ _ hb, putBytes_2 cp hA hB]; rfl
+      refine ⟨?_, by rw [putBytes_2 cp hA hB, hs]; rfl, hb, by omega⟩
+      rw [nextUtf8_2 _ _ _ (by simp [lenLt]) (by omega) (by omega) (by omega), m0, m1, hs]
+      congr 1; omega
+    · rcases Nat.lt_or_ge cp 0x10000 with hC | hC
+      · have hs : seqlen cp = 3 := by unfold seqlen; (repeat' split) <;> omega
+        have hb : ∀ x ∈ putBytes cp, x < 256 := by
+          rw [putBytes_3 cp hB hC]; intro x hx; simp at hx; omega
+        have m0 : (memOfBytes (putBytes cp) 0).toNat = 224 + cp / 4096 := by
+          rw [memOfBytes_toNat _ _ hb, putBytes_3 cp hB hC]; rfl
+        have m1 : (memOfBytes (putBytes cp) (0 + 1)).toNat = 128 + cp / 64 % 64 := by
+          rw [memOfBytes_toNat _ _ hb, putBytes_3 cp hB hC]; rfl
+        have m2 : (memOfBytes (putBytes cp) (0 + 2)).toNat = 128 + cp % 64 := by
+          rw [memOfBytes_toNat _ _ hb, putBytes_3 cp hB hC]; rfl
+        refine ⟨?_, by rw [putBytes_3 cp hB hC, hs]; rfl, hb, by omega⟩
+        rw [nextUtf8_3 _ _ _ (by simp [lenLt]) (by omega) (by omega) (by omega) (by omega), m0, m1, m2, hs]
+        congr 1; omega
+      · have hs : seqlen cp = 4 := by unfold seqlen; (repeat' split) <;> omega
+        have hb : ∀ x ∈ putBytes cp, x < 256 := by
+          rw [putBytes_4 cp hC h1]; intro x hx; simp at hx; omega
+        have m0 : (memOfBytes (putBytes cp) 0).toNat = 240 + cp / 262144 := by
+          rw [memOfBytes_toNat _ _ hb, putBytes_4 cp hC h1]; rfl
+        have m1 : (memOfBytes (putBytes cp) (0 + 1)).toNat = 128 + cp / 4096 % 64 := by
+          rw [memOfBytes_toNat _ _ hb, putBytes_4 cp hC h1]; rfl
+        have m2 : (memOfBytes (putBytes cp) (0 + 2)).toNat = 128 + cp / 64 % 64 := by
+          rw [memOfBytes_toNat _ _ hb, putBytes_4 cp hC h1]; rfl
+        have m3 : (memOfBytes (putBytes cp) (0 + 3)).toNat = 128 + cp % 64 := by
+          rw [memOfBytes_toNat _ _ hb, putBytes_4 cp hC h1]; rfl
+        refine ⟨?_, by rw [putBytes_4 cp hC h1, hs]; rfl, hb, by omega⟩
+        rw [nextUtf8_4 _ _ _ (by simp [lenLt]) (by omega) (by omega) (by omega) (by omega) (by omega),
+          m0, m1, m2, m3, hs]
+        congr 1; omega
+
+/-- Counting what `tickit_utf8_put` wrote for a non-control code point. -/
+theorem count_putBytes (cp : Nat) (h0 : 0x20 ≤ cp) (hc : ¬ (0x7f ≤ cp ∧ cp < 0xa0)) (h1 : cp < 0x200000)
+    (fuel : Nat) :
+    count (memOfBytes (putBytes cp)) (fuel + 2) none =
+      .ret (seqlen cp) ⟨seqlen cp, 1, if Width.wcwidth cp > 0 then 1 else 0, Width.wcwidth cp⟩ (seqlen cp + 1) := by
+  obtain ⟨hdec, hlen, hb, hm0⟩ := nextUtf8_putBytes cp (by omega) h1
+  have hw := wcwidth_ne_neg_one cp (by omega) (by omega)
+  have hst : stepAt (memOfBytes (putBytes cp)) 0 none = .ch (seqlen cp) cp (Width.wcwidth cp) (seqlen cp) := by
+    unfold stepAt
+    simp only [hm0, hdec, hw, if_false]
+    have : ¬ (cp < 0x20 ∨ (cp ≥ 0x80 ∧ cp < 0xa0)) := by omega
+    simp [this]
+  have hend : (memOfBytes (putBytes cp) (seqlen cp)).toNat = 0 := by
+    rw [memOfBytes_toNat _ _ hb, ← hlen]; simp
+  have hst2 : stepAt (memOfBytes (putBytes cp)) (0 + seqlen cp) (lenDec none (seqlen cp)) = .stop (seqlen cp + 1) := by
+    unfold stepAt
+    simp [lenDec, hend]
+  unfold count ncountmore
+  simp only [Pos.zero, lenSub]
+  rw [loop]
+  simp only [hst, exceeds]
+  rw [loop]
+  simp only [hst2, Pos.adv, Bool.false_eq_true, if_false]
+  have := seqlen_pos cp
+  congr 1
+  · simp
+  · simp
+  · omega
 
 end Utf8
 end Tickit
